@@ -29,3 +29,27 @@ extern "C" void vh_smoke2() {
     nixsym_declare_reach("notcaught");
     if (!caught) nixsym_reach("notcaught");
 }
+#include <cmath>
+// floating-point branching: every feasible side of short-circuit conditions over ceil/floor/fabs must be explored
+static bool zone_branchy(double p) {
+    double xc = std::ceil(p), xf = std::floor(p);
+    const double eps = 2.220446049250313e-16;
+    return (xc != p && std::fabs(xc - p) <= eps) || (xf != p && std::fabs(xf - p) <= eps);
+}
+extern "C" void vh_smoke_fp() {
+    nixsym_declare_reach("integer"); nixsym_declare_reach("zone"); nixsym_declare_reach("plain"); nixsym_declare_reach("cast-ok");
+    double p = nixsym_f64("p");
+    nixsym_assume(p == p && p >= -4.0 && p <= 255.0);
+    bool z = zone_branchy(p);
+    if (std::ceil(p) == p) { nixsym_reach("integer"); nixsym_assert(!z, "an integer is not in the zone"); }
+    else if (z) nixsym_reach("zone"); else nixsym_reach("plain");
+    if (p >= 0.0) {
+        double t = std::round(p);
+        if (std::fabs(t - p) <= 2.220446049250313e-16) {
+            unsigned long long i = (unsigned long long)t;
+            nixsym_assume(i <= 257);
+            nixsym_reach("cast-ok");
+            nixsym_assert((double)i == t, "integer round trip");
+        }
+    }
+}
